@@ -9,6 +9,16 @@
 //! `gix::Repository::attributes_only()` -> `Stack::at_entry(path, mode).matching_attributes(&mut outcome)` with an outcome
 //! for all attributes (`attribute_matches()`, compared with `-a`) and with a selection (`selected_attribute_matches`).
 //! A `--cached` pass reads `.gitattributes` from the index on both sides (`Source::IdMapping`).
+//!
+//! Oracle R (re-use of one `Outcome`): the callers of the attribute search keep ONE `gix_attributes::search::Outcome` and
+//! send many paths through it (`initialize()`/`reset()` before each path), often initialized with a selection of a few names,
+//! which lets the search stop as soon as the selection is filled. For sequences of paths in random order (paths repeat)
+//! and for random selections of 1..3 names (plain attributes, macros, names that never occur) as well as without a
+//! selection, every value of the re-used outcome must equal `git check-attr <names>` (`-a` without a selection) AND
+//! the value a fresh outcome gives for the same path (the answer for a path must not depend on the paths asked before).
+//! Driven through `gix_worktree::Stack` (`selected_attribute_matches()`/`attribute_matches()`, `at_entry()`,
+//! `matching_attributes()`) and through `gix_attributes::Search::pattern_matching_relative_path()` directly, with pattern
+//! lists pushed and popped per directory the way gix-worktree does it.
 use crate::fw::{git, guard, show, Ctx, Rng};
 use bstr::ByteSlice;
 use serde_json::json;
@@ -79,6 +89,29 @@ fn gen_assignments(r: &mut Rng, allow_macro_names: bool) -> String {
     v.join(if r.chance(1, 10) { "\t" } else { " " })
 }
 
+/// 2..5 assignments over a pool of 1..3 names and the macros, so that a line assigns an attribute more than once: directly
+/// (`a -a`), through a macro and directly (`binary diff=v`), or through nested macros
+fn gen_assignments_dense(r: &mut Rng) -> String {
+    let pool: Vec<&str> = (0..1 + r.usize(3)).map(|_| *r.pick(ATTRS)).collect();
+    let n = 2 + r.usize(4);
+    let mut v = Vec::new();
+    for _ in 0..n {
+        if r.chance(1, 4) {
+            let m = *r.pick(&["binary", "m1", "m2", "m3"]);
+            v.push(if r.chance(1, 6) { format!("-{m}") } else { m.to_string() });
+            continue;
+        }
+        let name = *r.pick(&pool);
+        v.push(match r.below(10) {
+            0..=2 => name.to_string(),
+            3..=5 => format!("-{name}"),
+            6 => format!("!{name}"),
+            _ => format!("{name}={}", r.pick(VALUES)),
+        });
+    }
+    v.join(" ")
+}
+
 /// the pattern part of a line for an attribute file whose directory contains `below`
 fn gen_pattern(r: &mut Rng, below: &[String], icase: bool) -> String {
     let target: String = if !below.is_empty() && r.chance(4, 5) { r.pick(below).clone() } else { r.pick(NAMES).to_string() };
@@ -146,7 +179,7 @@ fn gen_pattern(r: &mut Rng, below: &[String], icase: bool) -> String {
     p
 }
 
-fn gen_attr_file(r: &mut Rng, below: &[String], icase: bool, macros_allowed: bool) -> Vec<u8> {
+fn gen_attr_file(r: &mut Rng, below: &[String], icase: bool, macros_allowed: bool, dense: bool) -> Vec<u8> {
     let n = 1 + r.usize(7);
     let crlf = r.chance(1, 12);
     let mut out = Vec::new();
@@ -160,7 +193,7 @@ fn gen_attr_file(r: &mut Rng, below: &[String], icase: bool, macros_allowed: boo
             2 => "   ".into(),
             3 | 4 | 5 if macros_allowed || r.chance(1, 8) => {
                 let m = *r.pick(&["m1", "m2", "m3", "binary", "m1", "m2"]);
-                format!("[attr]{m} {}", gen_assignments(r, true))
+                format!("[attr]{m} {}", if dense && r.chance(1, 2) { gen_assignments_dense(r) } else { gen_assignments(r, true) })
             }
             6 => format!("!{} {}", gen_pattern(r, below, icase), gen_assignments(r, false)),
             7 => format!("{} {} bad/name", gen_pattern(r, below, icase), gen_assignments(r, false)),
@@ -169,7 +202,8 @@ fn gen_attr_file(r: &mut Rng, below: &[String], icase: bool, macros_allowed: boo
                 let p = gen_pattern(r, below, icase);
                 let p = if p.contains(' ') || p.contains('\t') || p.starts_with('"') || p.starts_with('#') || r.chance(1, 10) { c_quote(&p) } else { p };
                 let lead = if r.chance(1, 15) { "  " } else { "" };
-                format!("{lead}{p}{}{}", if r.chance(1, 10) { "\t" } else { " " }, gen_assignments(r, true))
+                let sep = if r.chance(1, 10) { "\t" } else { " " };
+                format!("{lead}{p}{sep}{}", if dense && r.chance(2, 3) { gen_assignments_dense(r) } else { gen_assignments(r, true) })
             }
         };
         out.extend_from_slice(line.as_bytes());
@@ -221,7 +255,7 @@ fn materialize(ctx: &mut Ctx, files: Vec<String>, dirs: Vec<String>, mut attr_fi
     Ok(Scenario { root, files, dirs, attr_files, icase, global })
 }
 
-fn make_scenario(ctx: &mut Ctx, r: &mut Rng) -> Result<Scenario, String> {
+fn make_scenario(ctx: &mut Ctx, r: &mut Rng, dense: bool) -> Result<Scenario, String> {
     let icase = r.chance(3, 10);
     let mut files: BTreeSet<String> = BTreeSet::new();
     let mut dirs: BTreeSet<String> = BTreeSet::new();
@@ -276,18 +310,18 @@ fn make_scenario(ctx: &mut Ctx, r: &mut Rng) -> Result<Scenario, String> {
     };
     let mut attr_files: Vec<(String, Vec<u8>)> = Vec::new();
     if r.chance(4, 5) {
-        attr_files.push((".gitattributes".into(), gen_attr_file(r, &below(""), icase, true)));
+        attr_files.push((".gitattributes".into(), gen_attr_file(r, &below(""), icase, true, dense)));
     }
     for d in &dirs {
         if r.chance(1, 3) {
-            attr_files.push((format!("{d}/.gitattributes"), gen_attr_file(r, &below(d), icase, false)));
+            attr_files.push((format!("{d}/.gitattributes"), gen_attr_file(r, &below(d), icase, false, dense)));
         }
     }
     if r.chance(2, 5) {
-        attr_files.push((".git/info/attributes".into(), gen_attr_file(r, &below(""), icase, true)));
+        attr_files.push((".git/info/attributes".into(), gen_attr_file(r, &below(""), icase, true, dense)));
     }
     if r.chance(3, 10) {
-        attr_files.push(("<core.attributesFile>".into(), gen_attr_file(r, &below(""), icase, true)));
+        attr_files.push(("<core.attributesFile>".into(), gen_attr_file(r, &below(""), icase, true, dense)));
     }
     materialize(ctx, files.into_iter().collect(), dirs.into_iter().collect(), attr_files, icase)
 }
@@ -536,7 +570,7 @@ fn kind_of(state: &str) -> &'static str {
 }
 
 /// ask git and gitoxide about every query x attribute and compare
-fn check_scenario(ctx: &mut Ctx, sc: &Scenario, queries: &[String], order: Vec<usize>, with_all: bool, with_index: bool) {
+fn check_scenario(ctx: &mut Ctx, sc: &Scenario, queries: &[String], order: Vec<usize>, with_all: bool, with_index: bool, stash: &mut Vec<(bool, GitTables)>) {
     ctx.count("worktrees");
     ctx.count_n("attribute_files", sc.attr_files.len() as u64);
     if sc.global.is_some() {
@@ -586,6 +620,7 @@ fn check_scenario(ctx: &mut Ctx, sc: &Scenario, queries: &[String], order: Vec<u
         }
         let mut sel_args = args.clone();
         sel_args.extend_from_slice(ATTRS);
+        sel_args.extend_from_slice(NEVER); // not compared here: oracle R takes its expectations for selections from this answer
         let git_sel = match git_table(sc, queries, &sel_args) {
             Ok(t) => t,
             Err(e) => {
@@ -610,6 +645,7 @@ fn check_scenario(ctx: &mut Ctx, sc: &Scenario, queries: &[String], order: Vec<u
         } else {
             None
         };
+        stash.push((cached, GitTables { names: git_sel.clone(), all: git_all.clone() }));
         let (sc_ref, q_ref, ord) = (sc, queries, order.clone());
         let (gix_sel, gix_all) = match guard(move || gix_tables(sc_ref, q_ref, &ord, cached)) {
             Err(pi) => {
@@ -687,13 +723,500 @@ fn check_scenario(ctx: &mut Ctx, sc: &Scenario, queries: &[String], order: Vec<u
     }
 }
 
+// ------------------------------------------------------------------------------------------------
+// Oracle R: one `Outcome` re-used over a sequence of paths
+// ------------------------------------------------------------------------------------------------
+/// attribute names that occur in no generated attribute file (attribute names are case-sensitive)
+const NEVER: &[&str] = &["nope", "zz-never", "Text"];
+
+#[derive(Clone)]
+struct Plan {
+    /// None: all attributes (`initialize()`), Some: `initialize_with_selection()`
+    selection: Option<Vec<String>>,
+    /// indices into the queries in the order they are asked; paths may be asked more than once
+    order: Vec<usize>,
+    /// `Search` API only. false: `initialize(collection)` before every path while pattern lists are loaded on demand (what
+    /// gix-worktree does); true: every attribute file was seen before, only `reset()` before every path
+    reset_only: bool,
+    /// also through `gix_worktree::Stack` (it reads the attribute files from disk again and again, which is slow)
+    via_stack: bool,
+    /// ask git with exactly the selected names (one more process) instead of taking them from its answer for all names
+    git_exact: bool,
+}
+
+struct Step {
+    reused: BTreeMap<String, String>,
+    fresh: BTreeMap<String, String>,
+    /// the re-used outcome was `is_done()` after this path: the search had stopped early
+    early_done: bool,
+}
+
+type Outcome = gix_attributes::search::Outcome;
+
+fn new_outcome(collection: &gix_attributes::search::MetadataCollection, selection: &Option<Vec<String>>) -> Outcome {
+    let mut out = Outcome::default();
+    match selection {
+        Some(names) => out.initialize_with_selection(collection, names.iter().map(|s| s.as_str())),
+        None => out.initialize(collection),
+    }
+    out
+}
+
+/// what a caller reads from an outcome: the selected names in case of a selection, else everything that is not unspecified
+fn outcome_map(out: &Outcome, selected: bool) -> BTreeMap<String, String> {
+    let mut m = BTreeMap::new();
+    if selected {
+        for mt in out.iter_selected() {
+            m.insert(mt.assignment.name.as_str().to_string(), state_text(mt.assignment.state));
+        }
+    } else {
+        for mt in out.iter() {
+            if !matches!(mt.assignment.state, gix::attrs::StateRef::Unspecified) {
+                m.insert(mt.assignment.name.as_str().to_string(), state_text(mt.assignment.state));
+            }
+        }
+    }
+    m
+}
+
+/// (path without the trailing slash of a directory query, is_dir as gix-worktree derives it from the entry mode)
+fn query_kind<'a>(sc: &Scenario, q: &'a str) -> (&'a str, Option<bool>) {
+    match q.strip_suffix('/') {
+        Some(d) => (d, Some(true)),
+        None => (q, if sc.files.iter().any(|f| f == q) { Some(false) } else { None }),
+    }
+}
+
+/// every plan through its own `gix_worktree::Stack` with one re-used outcome (and a fresh one per path)
+fn stack_sequences(sc: &Scenario, queries: &[String], plans: &[Plan], from_index: bool) -> Result<Vec<Vec<Step>>, String> {
+    use gix::worktree::stack::state::attributes::Source;
+    let repo = gix::open_opts(&sc.root, gix::open::Options::isolated()).map_err(|e| format!("open: {e}"))?;
+    let index = repo.index_or_empty().map_err(|e| format!("index: {e}"))?;
+    let source = if from_index { Source::IdMapping } else { Source::WorktreeThenIdMapping };
+    let mut res = Vec::new();
+    for plan in plans {
+        if !plan.via_stack {
+            res.push(Vec::new());
+            continue;
+        }
+        let mut stack = repo.attributes_only(&index, source).map_err(|e| format!("attributes_only: {e}"))?;
+        let make = |stack: &gix::AttributeStack<'_>| match &plan.selection {
+            Some(names) => stack.selected_attribute_matches(names.iter().map(|s| s.as_str())),
+            None => stack.attribute_matches(),
+        };
+        let selected = plan.selection.is_some();
+        let mut reused = make(&stack);
+        let mut steps = Vec::new();
+        for &qi in &plan.order {
+            let q = &queries[qi];
+            let (rel, is_dir) = query_kind(sc, q);
+            let mode = match is_dir {
+                Some(true) => Some(gix::index::entry::Mode::DIR),
+                Some(false) => Some(gix::index::entry::Mode::FILE),
+                None => None,
+            };
+            let mut fresh = make(&stack);
+            let platform = stack.at_entry(rel.as_bytes().as_bstr(), mode).map_err(|e| format!("at_entry({q:?}): {e}"))?;
+            platform.matching_attributes(&mut reused);
+            platform.matching_attributes(&mut fresh);
+            steps.push(Step { reused: outcome_map(&reused, selected), fresh: outcome_map(&fresh, selected), early_done: reused.is_done() });
+        }
+        res.push(steps);
+    }
+    Ok(res)
+}
+
+/// The pattern lists of a worktree the way `gix_worktree::stack::state::Attributes` arranges them: built-in and
+/// `core.attributesFile` < root `.gitattributes` < those of sub-directories (pushed and popped as paths are visited; macros
+/// only from the root) < `info/attributes`; one collection of names for all of them.
+struct Lists<'a> {
+    sc: &'a Scenario,
+    root: PathBuf,
+    case: gix_glob::pattern::Case,
+    collection: gix_attributes::search::MetadataCollection,
+    globals: gix_attributes::Search,
+    stack: gix_attributes::Search,
+    info: gix_attributes::Search,
+    /// directories (spelled as on disk) that have a `.gitattributes`, without the root
+    attr_dirs: BTreeSet<String>,
+    /// the sub-directory lists on `stack`, outermost first
+    pushed: Vec<String>,
+}
+
+impl<'a> Lists<'a> {
+    fn content(sc: &'a Scenario, name: &str) -> Option<&'a [u8]> {
+        sc.attr_files.iter().find(|(n, _)| n == name).map(|(_, c)| c.as_slice())
+    }
+
+    /// the attribute files are handed over as buffers (`add_patterns_buffer()`), except `core.attributesFile`
+    fn new(sc: &'a Scenario) -> std::io::Result<Lists<'a>> {
+        let mut collection = gix_attributes::search::MetadataCollection::default();
+        let mut buf = Vec::new();
+        let globals = gix_attributes::Search::new_globals(sc.global.iter().cloned(), &mut buf, &mut collection)?;
+        let mut stack = gix_attributes::Search::default();
+        if let Some(c) = Self::content(sc, ".gitattributes") {
+            stack.add_patterns_buffer(c, sc.root.join(".gitattributes"), Some(&sc.root), &mut collection, true);
+        }
+        let mut info = gix_attributes::Search::default();
+        if let Some(c) = Self::content(sc, ".git/info/attributes") {
+            info.add_patterns_buffer(c, sc.root.join(".git/info/attributes"), None, &mut collection, true);
+        }
+        let attr_dirs = sc.attr_files.iter().filter_map(|(n, _)| n.strip_suffix("/.gitattributes").filter(|d| !d.starts_with('/')).map(|d| d.to_string())).collect();
+        let case = if sc.icase { gix_glob::pattern::Case::Fold } else { gix_glob::pattern::Case::Sensitive };
+        Ok(Lists { sc, root: sc.root.clone(), case, collection, globals, stack, info, attr_dirs, pushed: Vec::new() })
+    }
+
+    /// make `stack` hold the lists of the directories leading to `rel` (the directory an attribute file lives in is looked up
+    /// on disk, hence by its exact spelling also with core.ignoreCase)
+    fn enter_parent_of(&mut self, rel: &str) {
+        let mut wanted: Vec<String> = Vec::new();
+        let comps: Vec<&str> = rel.split('/').collect();
+        let mut pre = String::new();
+        for c in &comps[..comps.len() - 1] {
+            if !pre.is_empty() {
+                pre.push('/');
+            }
+            pre.push_str(c);
+            if self.attr_dirs.contains(&pre) {
+                wanted.push(pre.clone());
+            }
+        }
+        let common = self.pushed.iter().zip(wanted.iter()).take_while(|(a, b)| a == b).count();
+        while self.pushed.len() > common {
+            self.stack.pop_pattern_list();
+            self.pushed.pop();
+        }
+        for d in &wanted[common..] {
+            let c = Self::content(self.sc, &format!("{d}/.gitattributes")).expect("attr_dirs are taken from the attribute files");
+            self.stack.add_patterns_buffer(c, self.root.join(d).join(".gitattributes"), Some(&self.root), &mut self.collection, false);
+            self.pushed.push(d.clone());
+        }
+    }
+
+    fn matching(&self, rel: &str, is_dir: Option<bool>, out: &mut Outcome) {
+        for group in [&self.info, &self.stack, &self.globals] {
+            group.pattern_matching_relative_path(rel.as_bytes().as_bstr(), self.case, is_dir, out);
+            if out.is_done() {
+                break;
+            }
+        }
+    }
+}
+
+/// every plan through `gix_attributes::Search` with one re-used outcome (and a fresh one per path)
+fn search_sequences(sc: &Scenario, queries: &[String], plans: &[Plan]) -> Result<Vec<Vec<Step>>, String> {
+    let mut res = Vec::new();
+    for plan in plans {
+        let mut lists = Lists::new(sc).map_err(|e| format!("reading attribute files: {e}"))?;
+        if plan.reset_only {
+            // all names are known before the outcome is created, the collection does not change any more
+            for q in queries {
+                lists.enter_parent_of(query_kind(sc, q).0);
+            }
+        }
+        let selected = plan.selection.is_some();
+        let mut reused = new_outcome(&lists.collection, &plan.selection);
+        let mut steps = Vec::new();
+        for &qi in &plan.order {
+            let (rel, is_dir) = query_kind(sc, &queries[qi]);
+            lists.enter_parent_of(rel);
+            if plan.reset_only {
+                reused.reset();
+            } else {
+                reused.initialize(&lists.collection);
+            }
+            lists.matching(rel, is_dir, &mut reused);
+            let mut fresh = new_outcome(&lists.collection, &plan.selection);
+            lists.matching(rel, is_dir, &mut fresh);
+            steps.push(Step { reused: outcome_map(&reused, selected), fresh: outcome_map(&fresh, selected), early_done: reused.is_done() });
+        }
+        res.push(steps);
+    }
+    Ok(res)
+}
+
+/// 1..3 different names: attributes, macros, names that never occur
+fn gen_selection(r: &mut Rng) -> Vec<String> {
+    let n = 1 + r.usize(3);
+    let mut v: Vec<String> = Vec::new();
+    while v.len() < n {
+        let name = if r.chance(1, 8) { *r.pick(NEVER) } else { *r.pick(ATTRS) };
+        if !v.iter().any(|x| x == name) {
+            v.push(name.to_string());
+        }
+    }
+    v
+}
+
+/// every path at least once in random order, some a second time (also directly after itself)
+fn gen_order(r: &mut Rng, n: usize) -> Vec<usize> {
+    let mut order: Vec<usize> = (0..n).collect();
+    for _ in 0..(n / 3 + 1) {
+        order.push(r.usize(n));
+    }
+    r.shuffle(&mut order);
+    if n > 0 && r.chance(1, 3) {
+        let i = r.usize(order.len());
+        let x = order[i];
+        order.insert(i, x);
+    }
+    order
+}
+
+/// judge the steps of one plan: against git (`expected`) and against the fresh outcome
+#[allow(clippy::too_many_arguments)]
+fn judge_sequence(ctx: &mut Ctx, sc: &Scenario, api: &'static str, pass: &str, queries: &[String], plan: &Plan, steps: &[Step], expected: &Table, witness_base: &serde_json::Value) {
+    let selected = plan.selection.is_some();
+    let site = format!("{api}-{}", if selected { "selected" } else { "all" });
+    ctx.count(&format!("reuse_sequences_{site}"));
+    let has_macro = plan.selection.as_ref().map_or(false, |s| s.iter().any(|n| matches!(n.as_str(), "m1" | "m2" | "m3" | "binary")));
+    let has_never = plan.selection.as_ref().map_or(false, |s| s.iter().any(|n| NEVER.contains(&n.as_str())));
+    let nsel = plan.selection.as_ref().map_or(0, |s| s.len());
+    for (i, step) in steps.iter().enumerate() {
+        let q = &queries[plan.order[i]];
+        let git = &expected[q];
+        ctx.count("reuse_paths_compared");
+        if step.early_done {
+            ctx.count("reuse_paths_search_stopped_early");
+        }
+        // names to judge: the selection, or everything anybody reports
+        let names: Vec<String> = match &plan.selection {
+            Some(s) => s.clone(),
+            None => git.keys().chain(step.reused.keys()).chain(step.fresh.keys()).cloned().collect::<BTreeSet<_>>().into_iter().collect(),
+        };
+        if !selected {
+            ctx.eval();
+            ctx.distinct(("reuse", api, 0usize, "all", step.early_done, false, false, i == 0, sc.icase));
+        }
+        for name in &names {
+            let absent = if selected { "<missing>" } else { "unspecified" };
+            let g = git.get(name).cloned().unwrap_or_else(|| absent.into());
+            let x = step.reused.get(name).cloned().unwrap_or_else(|| absent.into());
+            let f = step.fresh.get(name).cloned().unwrap_or_else(|| absent.into());
+            if selected {
+                ctx.eval();
+                ctx.distinct(("reuse", api, nsel, kind_of(&g), step.early_done, has_macro, has_never, i == 0, sc.icase));
+            }
+            ctx.count("reuse_values_compared");
+            if x == g && x == f {
+                if selected && i > 0 && g != "unspecified" && step.early_done && ctx.counter("reuse_samples") < 2 {
+                    ctx.count("reuse_samples");
+                    ctx.sample(json!({"api": api, "selection": plan.selection, "path": q, "asked_before": queries[plan.order[i - 1]], "attribute": name, "git_and_reused_and_fresh_outcome": g, "pass": pass}));
+                }
+                continue;
+            }
+            let mut w = witness_base.clone();
+            w["api"] = json!(api);
+            w["selection"] = json!(plan.selection);
+            w["reset_only"] = json!(plan.reset_only);
+            w["query"] = json!(q);
+            w["asked_before"] = json!(plan.order[i.saturating_sub(4)..i].iter().map(|&k| queries[k].clone()).collect::<Vec<_>>());
+            w["position_in_sequence"] = json!(i);
+            w["attribute"] = json!(name);
+            w["git"] = json!(g);
+            w["reused_outcome"] = json!(x);
+            w["fresh_outcome"] = json!(f);
+            w["pass"] = json!(pass);
+            let before = if i > 0 { queries[plan.order[i - 1]].as_str() } else { "<nothing>" };
+            let sel_text = match &plan.selection {
+                Some(s) => format!("selection {s:?}"),
+                None => "no selection".to_string(),
+            };
+            if std::env::var("GXV_C38_DUMP").is_ok() {
+                eprintln!("DUMP reuse|{site}\t{q}\tafter {before}\t{name}\tgit={g}\treused={x}\tfresh={f}\t{sel_text}\t{pass}");
+            }
+            if x != f {
+                ctx.violation(
+                    &format!("reuse|{site}|differs-from-fresh-outcome"),
+                    &format!("{q:?} asked after {before:?} through one re-used Outcome ({sel_text}): attribute {name} is {x}, a fresh Outcome says {f}, git check-attr says {g} ({api}, {pass})"),
+                    w,
+                );
+            } else {
+                w["cause"] = json!(explain(sc, q, name, &g, &x));
+                ctx.violation(
+                    &format!("reuse|{site}|agrees-with-fresh-outcome-but-differs-from-git"),
+                    &format!("{q:?} ({sel_text}): attribute {name}: git check-attr says {g}, re-used and fresh Outcome say {x} ({api}, {pass})"),
+                    w,
+                );
+            }
+        }
+    }
+}
+
+/// what git says in one pass: for every name of the universe (ATTRS and NEVER), and with `-a`
+struct GitTables {
+    names: Table,
+    all: Option<Table>,
+}
+
+fn git_tables(ctx: &mut Ctx, sc: &Scenario, queries: &[String], cached: bool, with_all: bool) -> Result<GitTables, String> {
+    let mut args: Vec<&str> = Vec::new();
+    if cached {
+        args.push("--cached");
+    }
+    let mut a = args.clone();
+    a.extend_from_slice(ATTRS);
+    a.extend_from_slice(NEVER);
+    let names = git_table(sc, queries, &a)?;
+    ctx.count("git_spawns");
+    let all = if with_all {
+        let mut a = args.clone();
+        a.push("-a");
+        let t = git_table(sc, queries, &a)?;
+        ctx.count("git_spawns");
+        Some(t)
+    } else {
+        None
+    };
+    Ok(GitTables { names, all })
+}
+
+/// Oracle R for one worktree: `plans` (each with its own order) through the `Search` API (worktree pass) and through the Stack
+/// (worktree pass, and index pass if the index was written). `known`: git's answers per pass (cached?) as far as they were
+/// already obtained; `ask_all`: otherwise also ask `git check-attr -a`.
+fn check_reuse(ctx: &mut Ctx, sc: &Scenario, queries: &[String], plans: &[Plan], known: Vec<(bool, GitTables)>, ask_all: bool) {
+    if queries.is_empty() || plans.is_empty() {
+        return;
+    }
+    ctx.count("reuse_worktrees");
+    let witness_base = json!({
+        "attribute_files": sc.attr_files.iter().map(|(n, c)| json!({"file": n, "content": show(c)})).collect::<Vec<_>>(),
+        "ignorecase": sc.icase,
+    });
+    let index_written = sc.root.join(".git/index").exists();
+    let mut known = known;
+    let passes: Vec<(&str, bool)> = if index_written { vec![("worktree", false), ("index", true)] } else { vec![("worktree", false)] };
+    for (pass, cached) in passes {
+        let tables = match known.iter().position(|(c, _)| *c == cached) {
+            Some(i) => known.swap_remove(i).1,
+            None => match git_tables(ctx, sc, queries, cached, ask_all) {
+                Ok(t) => t,
+                Err(e) => {
+                    ctx.inconclusive(&format!("git check-attr unusable: {e}"));
+                    return;
+                }
+            },
+        };
+        // git's `-a` answer, or if that was not asked for: everything that is not unspecified in its answer for all names
+        let all: Table = match &tables.all {
+            Some(t) => {
+                ctx.count("reuse_unselected_judged_by_git_check_attr_a");
+                t.clone()
+            }
+            None => tables.names.iter().map(|(q, m)| (q.clone(), m.iter().filter(|(_, v)| v.as_str() != "unspecified").map(|(n, v)| (n.clone(), v.clone())).collect())).collect(),
+        };
+        // what git says per plan: `-a`, or the selected names out of the answer for all names, or (git_exact) the answer to
+        // `git check-attr <selected names>`, which has to be the same
+        let mut expected: Vec<Table> = Vec::new();
+        for plan in plans {
+            let Some(names) = &plan.selection else {
+                expected.push(all.clone());
+                continue;
+            };
+            let subset: Table = tables.names.iter().map(|(q, m)| (q.clone(), m.iter().filter(|(n, _)| names.contains(*n)).map(|(n, v)| (n.clone(), v.clone())).collect())).collect();
+            if !plan.git_exact {
+                expected.push(subset);
+                continue;
+            }
+            let mut args: Vec<&str> = Vec::new();
+            if cached {
+                args.push("--cached");
+            }
+            args.extend(names.iter().map(|s| s.as_str()));
+            match git_table(sc, queries, &args) {
+                Ok(t) => {
+                    ctx.count("git_spawns");
+                    ctx.count("git_calls_with_exactly_the_selection");
+                    if t != subset {
+                        // git itself would be inconsistent; the monitor then follows the call that names the selection
+                        ctx.count("git_answer_for_selection_differs_from_its_answer_for_all_names");
+                    }
+                    expected.push(t);
+                }
+                Err(e) => {
+                    ctx.inconclusive(&format!("git check-attr unusable: {e}"));
+                    return;
+                }
+            }
+        }
+        let apis: &[&'static str] = if cached { &["stack"] } else { &["search", "stack"] };
+        for &api in apis {
+            if api == "stack" && !plans.iter().any(|p| p.via_stack) {
+                continue;
+            }
+            let (sc_ref, q_ref) = (sc, queries);
+            let res = guard(move || if api == "stack" { stack_sequences(sc_ref, q_ref, plans, cached) } else { search_sequences(sc_ref, q_ref, plans) });
+            let all_steps = match res {
+                Err(pi) => {
+                    ctx.panic_violation(if api == "stack" { "Stack::at_entry/matching_attributes with re-used Outcome" } else { "Search::pattern_matching_relative_path with re-used Outcome" }, &pi, pass, witness_base.clone());
+                    continue;
+                }
+                Ok(Err(e)) => {
+                    ctx.violation(&format!("reuse|error|{api}"), &format!("gitoxide failed where git answered: {e} ({pass})"), witness_base.clone());
+                    continue;
+                }
+                Ok(Ok(s)) => s,
+            };
+            for (k, plan) in plans.iter().enumerate() {
+                if api == "stack" && !plan.via_stack {
+                    continue;
+                }
+                judge_sequence(ctx, sc, api, pass, queries, plan, &all_steps[k], &expected[k], &witness_base);
+            }
+        }
+    }
+}
+
+/// add the tracked attribute files to the index so that a `--cached`/`Source::IdMapping` pass is possible (not when one starts
+/// with a BOM, see `check_scenario`)
+fn write_index(ctx: &mut Ctx, sc: &Scenario) -> bool {
+    let tracked: Vec<&(String, Vec<u8>)> = sc.attr_files.iter().filter(|(n, _)| !n.starts_with(".git/") && !n.starts_with('/')).collect();
+    if tracked.is_empty() || tracked.iter().any(|(_, c)| c.starts_with(b"\xef\xbb\xbf")) {
+        return false;
+    }
+    let mut input = Vec::new();
+    for (n, _) in &tracked {
+        input.extend_from_slice(n.as_bytes());
+        input.push(0);
+    }
+    match git::run_in(&sc.root, &["update-index", "--add", "-z", "--stdin"], &input) {
+        Ok(o) if o.ok => {
+            ctx.count("git_spawns");
+            true
+        }
+        _ => {
+            let _ = std::fs::remove_file(sc.root.join(".git/index"));
+            ctx.count("reuse_index_not_written");
+            false
+        }
+    }
+}
+
+/// `nselections` plans with a selection (the first `nstack` of them also through the Stack, the first `nexact` with their own
+/// git call) and one without a selection
+fn gen_plans(r: &mut Rng, nqueries: usize, nselections: usize, nstack: usize, nexact: usize) -> Vec<Plan> {
+    let mut plans = Vec::new();
+    for i in 0..nselections {
+        plans.push(Plan { selection: Some(gen_selection(r)), order: gen_order(r, nqueries), reset_only: r.bool(), via_stack: i < nstack, git_exact: i < nexact });
+    }
+    plans.push(Plan { selection: None, order: gen_order(r, nqueries), reset_only: r.bool(), via_stack: true, git_exact: false });
+    plans
+}
+
 pub fn run(ctx: &mut Ctx) {
     ctx.rule(
         "case = one generated worktree (5..35 files, depth<=4) with .gitattributes at root/sub-directories, info/attributes, core.attributesFile, \
          core.ignoreCase on/off; lines: pattern (basename, /anchored, with slash, *.ext, **/x, x/**, ?, [..], quoted) + 1..4 of attr, -attr, !attr, attr=value \
          over 14 names; macros [attr]m1..m3/binary (nested, redefined, also where git forbids them), negative patterns, invalid names, CRLF, BOM; \
          queries: every file, every directory as 'dir/', some non-existing names. \
-         distinct = (git state kind, gitoxide state kind, attribute is a macro, depth of the path, dir/file, icase, pass)",
+         distinct = (git state kind, gitoxide state kind, attribute is a macro, depth of the path, dir/file, icase, pass). \
+         Re-use (oracle R): on each of these worktrees 3 selections of 1..3 names out of the 14 + 3 that never occur, and no selection; in 25 (thorough 400) more \
+         'reuse' worktrees whose lines assign an attribute several times (directly, via a macro, via nested macros) 6 selections and none; each plan is a sequence of all \
+         queries in random order with repeats through ONE Outcome: gix_attributes::Search with initialize()-per-path or reset()-per-path (all plans), gix_worktree Stack \
+         (1..2 selections and none; also from the index), judged per path x name against git check-attr (its answer for all names, for some selections the call with \
+         exactly the selected names, `-a` or the specified part of the all-names answer without selection) and against a fresh Outcome; a hand-written worktree asks every \
+         ordered pair of its 11 paths for every selection of 1 and 2 of 10 names. \
+         distinct there = (api, size of selection, git state kind, search stopped early, selection has macro, has unknown name, first of sequence, icase)",
     );
     ctx.assume("attribute values are not the words set/unset/unspecified; no system/XDG attribute files (GIT_ATTR_NOSYSTEM=1, isolated open options); no --cached comparison when a tracked .gitattributes starts with a BOM (git strips it only when reading from disk)");
     ctx.cases("directed", 1, |ctx, _r| {
@@ -710,14 +1233,62 @@ pub fn run(ctx: &mut Ctx) {
                 let mut queries = files;
                 queries.push("d/".into());
                 let order = (0..queries.len()).collect();
-                check_scenario(ctx, &sc, &queries, order, true, true);
+                check_scenario(ctx, &sc, &queries, order, true, true, &mut Vec::new());
+            }
+            Err(e) => ctx.inconclusive(&format!("scenario setup failed: {e}")),
+        }
+    });
+    ctx.cases("directed-reuse", 1, |ctx, _r| {
+        // small scope, exhaustive: every ordered pair of paths, every selection of one and of two names (and none), so that
+        // a dependence of a path's answer on the path asked before it is seen in every run
+        let files: Vec<String> = ["k.one", "k.two", "k.mac", "k.nest", "k.val", "plain", "s/k.one", "s/other", "s/deep/k.val"].iter().map(|s| s.to_string()).collect();
+        let attr_files: Vec<(String, Vec<u8>)> = vec![
+            (
+                ".gitattributes".into(),
+                b"[attr]m1 foo -bar\n[attr]m2 m1 eol=lf bar\n* text\n*.one foo -foo bar\n*.two -foo foo\n*.mac binary diff=v merge\n*.nest m2 foo=2\n*.val eol=crlf eol=lf !bar bar=1\ns/ m1 -m1\n".to_vec(),
+            ),
+            ("s/.gitattributes".into(), b"other -text text=auto\ndeep/* m1 bar=s\n".to_vec()),
+            (".git/info/attributes".into(), b"plain !foo foo=i -foo\n".to_vec()),
+        ];
+        match materialize(ctx, files.clone(), vec!["s".to_string(), "s/deep".to_string()], attr_files, false) {
+            Ok(sc) => {
+                ctx.count("directed_worktrees");
+                let mut queries = files;
+                queries.push("s/".into());
+                queries.push("absent".into());
+                // a walk that has every ordered pair of paths (also a path after itself) next to each other: Euler tour of the
+                // complete directed graph with loops (Hierholzer)
+                let n = queries.len();
+                let mut next = vec![0usize; n];
+                let (mut walk, mut order) = (vec![0usize], Vec::new());
+                while let Some(&v) = walk.last() {
+                    if next[v] < n {
+                        next[v] += 1;
+                        walk.push(next[v] - 1);
+                    } else {
+                        order.push(v);
+                        walk.pop();
+                    }
+                }
+                order.reverse();
+                let names = ["text", "eol", "diff", "merge", "binary", "foo", "bar", "m1", "m2", "nope"];
+                let mut plans = vec![Plan { selection: None, order: order.clone(), reset_only: false, via_stack: true, git_exact: false }];
+                for (i, a) in names.iter().enumerate() {
+                    plans.push(Plan { selection: Some(vec![a.to_string()]), order: order.clone(), reset_only: i % 2 == 0, via_stack: true, git_exact: i == 5 });
+                    for (j, b) in names.iter().enumerate().skip(i + 1) {
+                        let sel = if (i + j) % 2 == 0 { vec![a.to_string(), b.to_string()] } else { vec![b.to_string(), a.to_string()] };
+                        plans.push(Plan { selection: Some(sel), order: order.clone(), reset_only: j % 2 == 0, via_stack: (i + j) % 3 == 0, git_exact: (i, j) == (2, 6) });
+                    }
+                }
+                ctx.count_n("directed_reuse_ordered_pairs_of_paths", (n * n) as u64);
+                check_reuse(ctx, &sc, &queries, &plans, Vec::new(), true);
             }
             Err(e) => ctx.inconclusive(&format!("scenario setup failed: {e}")),
         }
     });
     let n = ctx.n(45, 500);
     ctx.cases("worktree", n, |ctx, r| {
-        let sc = match make_scenario(ctx, r) {
+        let sc = match make_scenario(ctx, r, false) {
             Ok(s) => s,
             Err(e) => {
                 ctx.inconclusive(&format!("scenario setup failed: {e}"));
@@ -742,6 +1313,42 @@ pub fn run(ctx: &mut Ctx) {
         r.shuffle(&mut order);
         let with_all = r.chance(1, 2);
         let with_index = r.chance(1, 4);
-        check_scenario(ctx, &sc, &queries, order, with_all, with_index);
+        let mut stash = Vec::new();
+        check_scenario(ctx, &sc, &queries, order, with_all, with_index, &mut stash);
+        // oracle R on the same worktree, judged by the answers git has just given
+        if !stash.is_empty() {
+            let plans = gen_plans(r, queries.len(), 3, 1, 0);
+            check_reuse(ctx, &sc, &queries, &plans, stash, false);
+        }
+    });
+    let n = ctx.n(25, 400);
+    ctx.cases("reuse", n, |ctx, r| {
+        let sc = match make_scenario(ctx, r, true) {
+            Ok(s) => s,
+            Err(e) => {
+                ctx.inconclusive(&format!("scenario setup failed: {e}"));
+                return;
+            }
+        };
+        let mut queries: Vec<String> = sc.files.clone();
+        queries.extend(sc.dirs.iter().map(|d| format!("{d}/")));
+        for _ in 0..(1 + r.usize(4)) {
+            let q = if !sc.dirs.is_empty() && r.chance(2, 3) {
+                let di = r.usize(sc.dirs.len());
+                format!("{}/{}", sc.dirs[di], r.pick(NAMES))
+            } else {
+                r.pick(NAMES).to_string()
+            };
+            if !sc.root.join(&q).exists() && !queries.contains(&q) {
+                queries.push(q);
+            }
+        }
+        if r.chance(1, 6) && write_index(ctx, &sc) {
+            ctx.count("reuse_worktrees_with_index_pass");
+        }
+        let nexact = if r.chance(1, 3) { 1 } else { 0 };
+        let plans = gen_plans(r, queries.len(), 6, 2, nexact);
+        let ask_all = r.chance(1, 4);
+        check_reuse(ctx, &sc, &queries, &plans, Vec::new(), ask_all);
     });
 }
